@@ -313,7 +313,7 @@ func checkMain(args []string) int {
 // roughly 10 to 30 minutes on 16 cores; GOSYM_THOROUGH_UNITS overrides).
 var thoroughBudget = map[string]int{
 	"C01": 16000, "C15": 16000, "C03": 24000, "C04": 24000, "C05": 21000, "C07": 6000, "C18": 8000, "C20": 3200,
-	"C02": 2300, "C08": 1500, "C06": 500, "C17": 4000, "C16": 7000, "C09": 1100, "C12": 450, "C13": 450, "C10": 300, "C11": 40,
+	"C02": 2300, "C08": 1500, "C06": 500, "C17": 4000, "C16": 7000, "C09": 1100, "C12": 450, "C13": 450, "C10": 300, "C11": 60,
 }
 
 var runInfo map[string]any
